@@ -514,4 +514,32 @@ theorem pinv_stuck {adj : Adj} (hg : GoodAdj adj) {start : Nat} {s : PState} (h 
   rw [hheap] at hit
   cases hit
 
+open Solvor.Gen (Status) in
+/-- the run of `prim` on a well-formed undirected input, by the state its loop ends in -/
+theorem prim_cases {adj : Adj} (hg : GoodAdj adj) {start : Nat} (hs : start < adj.length) :
+    (∃ acc, prim adj start = ⟨.OPTIMAL, some acc, some (weight acc),
+        (ploop adj adj.length (adj.size + 1) (pinit adj start)).iters,
+        (ploop adj adj.length (adj.size + 1) (pinit adj start)).evals⟩ ∧
+      IsSpanningTree adj.length (arcs adj) acc ∧ MinCert (arcs adj) acc) ∨
+    (prim adj start = ⟨.INFEASIBLE, none, none,
+        (ploop adj adj.length (adj.size + 1) (pinit adj start)).iters,
+        (ploop adj adj.length (adj.size + 1) (pinit adj start)).evals⟩ ∧
+      ¬ Connected adj.length (arcs adj)) := by
+  obtain ⟨hinv, hfin⟩ := prim_final hg hs
+  have hne : adj.isEmpty = false := by
+    cases adj with
+    | nil => simp at hs
+    | cons _ _ => rfl
+  unfold prim
+  simp only [hne, Bool.false_eq_true, if_false]
+  by_cases hlt : (ploop adj adj.length (adj.size + 1) (pinit adj start)).inT.length < adj.length
+  · right
+    rcases hfin with h | h
+    · exact absurd hlt h
+    · exact ⟨by simp [hlt], pinv_stuck hg hinv hlt h⟩
+  · left
+    obtain ⟨htree, hcert⟩ := pinv_full hg hinv hlt
+    exact ⟨_, by simp [hlt, hinv.total], htree, hcert⟩
+
+
 end Solvor.Mst
